@@ -398,7 +398,7 @@ def build_request(method, target, headers, body=None, chunked=None, declare=True
 class Stack:
     """real proxy (Rust harness) + mock hosts, inside the current network namespace"""
 
-    def __init__(self, binp, log_level="Error"):
+    def __init__(self, binp, log_level="Error", wrapper=None):
         setup_net()
         self.hosts = MockHosts()
         self.sd = vlib.scratch_dir("e2e")
@@ -414,7 +414,7 @@ class Stack:
         self.panic_log = os.path.join(self.sd, "panics.log")
         env = dict(os.environ, VERIF_ENGINE="proxy", VERIF_OUT=f"/dev/fd/{w}", VERIF_LOG_LEVEL=log_level,
                    VERIF_PANIC_LOG=self.panic_log)
-        self.proc = subprocess.Popen([exe], stdin=subprocess.PIPE, stdout=open(os.path.join(self.sd, "stdout.txt"), "wb"),
+        self.proc = subprocess.Popen((wrapper or []) + [exe], stdin=subprocess.PIPE, stdout=open(os.path.join(self.sd, "stdout.txt"), "wb"),
                                      stderr=open(os.path.join(self.sd, "stderr.txt"), "wb"), env=env, pass_fds=(w,), cwd=self.sd)
         os.close(w)
         self.out = os.fdopen(r, "r")
